@@ -20,7 +20,13 @@ declare -A DEST=( [C01-a]=tests/seed_demo.rs [C03-a]=tests/seed_c03_demo.rs [C05
  [C16-b]=crates/polytune-server-core/tests/c16_b_demo.rs
  [C02-b]=tests/seed_c02b_demo.rs [C06-b]=tests/c06b_demo.rs [C07-b]=tests/c07b_demo.rs [C20-b]=tests/c20_demo.rs
  [C13-c]=crates/polytune-server-core/tests/seed_c13c.rs [C15-c]=crates/polytune-server-core/tests/c15_cancel_executing.rs
- [C17-c]=crates/polytune-server-core/tests/c17_demo.rs [C12-c]=tests/c12c_demo.rs
+ [C17-c]=crates/polytune-server-core/tests/c17_demo.rs [C12-c]=crates/polytune-server-core/tests/c12_slow_link.rs [C20-c]=tests/c20_demo.rs [C19-c]=tests/c19_demo.rs
+ [C04-b]=tests/c04_b_demo.rs [C01-c]=tests/seed_c01c_demo.rs [C05-c]=tests/seed_c05c_demo.rs [C09-c]=tests/c09_demo.rs
+ [C08-c]=tests/c08_demo.rs [C03-c]=tests/seed_c03_demo.rs [C10-c]=tests/seed_c10_demo.rs [C11-c]=tests/c11_demo.rs
+ [C18-c]=tests/c18_demo.rs [C02-c]=tests/c02_demo.rs [C06-c]=tests/c06_demo.rs [C07-c]=tests/c07_ashare_demo.rs
+ [C05-d]=tests/c05_demo.rs [C14-c]=crates/polytune-server-core/tests/c14_demo.rs [C16-c]=crates/polytune-server-core/tests/c16_demo.rs
+ [C13-d]=crates/polytune-server-core/tests/c13_demo.rs [C15-d]=crates/polytune-server-core/tests/c15_demo.rs
+ [C17-d]=crates/polytune-server-core/tests/c17_demo.rs
  [C20-a]=MOD:src/transpose/seed_demo.rs:src/transpose.rs:seed_demo )
 names=${@:-$(ls -d /verif/seeded/*/ | xargs -n1 basename)}
 for s in $names; do
@@ -44,7 +50,7 @@ for s in $names; do
     esac
   }
   # (C20-b's demonstration drives the guarded verification wrappers)
-  if [ $s = C20-b ]; then DEMOFLAGS="--cfg polytune_verif --check-cfg cfg(polytune_verif)"; else DEMOFLAGS=""; fi
+  if [ $s = C20-b ] || [ $s = C20-c ] || [ $s = C19-c ]; then DEMOFLAGS="--cfg polytune_verif --check-cfg cfg(polytune_verif)"; else DEMOFLAGS=""; fi
   # with the change
   git apply $d/patch.diff || { echo "$s: PATCH DOES NOT APPLY" >> $LOG; continue; }
   if [ $server = 1 ]; then
